@@ -29,6 +29,7 @@ OPEN_SIMS = {
     "C01/name-operand-read-after-later-call": ("late_name", "late_name"),
     "C01/for-else-dropped": ("for_else_dropped", "for_else"),
     "C01/import-rewrite-in-strings": ("import_rewrite", "import_dotted"),
+    "C01/explicit-base-call-receiver-as-argument": ("base_call_shift", "base_call"),
 }
 # open findings matched by a purely syntactic shape (no behavioural prediction possible)
 OPEN_SHAPES = {
@@ -92,6 +93,10 @@ def norm_result(r):
     return r
 
 
+def _type_error():
+    raise TypeError("simulated: one positional argument too many")
+
+
 def run_cpython(src, entry, argvs, max_lines=MAX_LINES):
     """Execute `src` in a fresh namespace per argument vector; returns [(outs, result)]."""
     try:
@@ -118,7 +123,7 @@ def run_cpython(src, entry, argvs, max_lines=MAX_LINES):
             return tracer
 
         ns = {"__name__": "__lv__", "print": _print,
-              "_sand": (lambda a, b: b if a else a), "_sor": (lambda a, b: a if a else b)}
+              "_sand": (lambda a, b: b if a else a), "_sor": (lambda a, b: a if a else b), "_type_error": _type_error}
         old = sys.gettrace()
         sys.settrace(tracer)
         try:
@@ -341,6 +346,12 @@ def shrink_candidates(prog):
             continue
         nb = delete(body, path)
         cands.append({"body": nb, "entry": prog["entry"], "argvs": prog["argvs"]})
+    # whole methods of top-level classes
+    for i, s in enumerate(body):
+        if s[0] == "class":
+            for m in range(len(s[4])):
+                ns = ("class", s[1], s[2], s[3], s[4][:m] + s[4][m + 1:])
+                cands.append({"body": body[:i] + [ns] + body[i + 1:], "entry": prog["entry"], "argvs": prog["argvs"]})
     # fewer argument vectors
     if len(prog["argvs"]) > 1:
         for i in range(len(prog["argvs"])):
@@ -451,7 +462,8 @@ def process_batch(arg):
     b, chunk, open_ids = arg
     scratch = Scratch()
     out = {"generated": 0, "rejected_by_oracle": 0, "pass": 0, "mismatch": 0, "nogir": 0, "known": {}, "known_example": {},
-           "constructs": {}, "shapes": {}, "stmts_total": 0, "hashes": [], "samples": [], "unexplained": []}
+           "constructs": {}, "shapes": {}, "stmts_total": 0, "hashes": [], "samples": [], "unexplained": [],
+           "with_class": 0, "with_fluent_chain": 0}
     try:
         progs = [pygen.generate(s, size=("small" if i % 5 == 0 else "normal")) for i, s in enumerate(chunk)]
         results = evaluate(scratch, progs)
@@ -463,6 +475,10 @@ def process_batch(arg):
             for sh in pygen.shapes(p):
                 out["shapes"][sh] = out["shapes"].get(sh, 0) + 1
             out["stmts_total"] += pygen.count_stmts(p["body"])
+            if "\nclass " in "\n" + r["source"]:
+                out["with_class"] += 1
+            if ").m" in r["source"]:
+                out["with_fluent_chain"] += 1
             if r["status"] == "reject":
                 out["rejected_by_oracle"] += 1
                 continue
@@ -496,7 +512,7 @@ def run(ctx):
     timing["proofs_s"] = round(time.time() - t, 1)
     scratch = Scratch()
     stats = {"corpus": 0, "generated": 0, "rejected_by_oracle": 0, "pass": 0, "mismatch": 0, "nogir": 0,
-             "known": {}, "constructs": {}, "shapes": {}, "stmts_total": 0}
+             "known": {}, "constructs": {}, "shapes": {}, "stmts_total": 0, "with_class": 0, "with_fluent_chain": 0}
     try:
         open_ids = ctx.finding_ids("open")
         t = time.time()
@@ -512,7 +528,7 @@ def run(ctx):
         common.LeanSide.build()
         with multiprocessing.Pool(min(workers(), len(jobs))) as pool:
             for out in pool.imap(process_batch, jobs):
-                for k in ("generated", "rejected_by_oracle", "pass", "mismatch", "nogir", "stmts_total"):
+                for k in ("generated", "rejected_by_oracle", "pass", "mismatch", "nogir", "stmts_total", "with_class", "with_fluent_chain"):
                     stats[k] += out[k]
                 ctx.cov["evaluations"] += out["generated"]
                 for k, v in out["constructs"].items():
@@ -563,7 +579,8 @@ def run(ctx):
                            "core-fragment programs of c01_core (counted in core_fragment)")
         ctx.cov["samples"] = samples
         ctx.cov["exhaustive"] = False
-        ctx.cov["leg3"] = {k: stats[k] for k in ("corpus", "generated", "rejected_by_oracle", "pass", "mismatch", "nogir", "known")}
+        ctx.cov["leg3"] = {k: stats[k] for k in ("corpus", "generated", "rejected_by_oracle", "pass", "mismatch", "nogir", "known",
+                                                  "with_class", "with_fluent_chain")}
         ctx.cov["constructs_hit"] = dict(sorted(stats["constructs"].items()))
         ctx.cov["defect_shapes_generated"] = stats["shapes"]
         ctx.cov["mean_statements_per_program"] = round(stats["stmts_total"] / max(1, stats["generated"]), 1)
